@@ -561,6 +561,8 @@ def filter_scenario(rng, n_ops=10, tag='wf', ops=None):
             V.setdefault('C16', []).append('initial pass did not run the five targets')
         quiet(1.0)
         seq = 0
+        modelled = []              # (target, M|R, path, triggered) for the operations Model/Watch.v speaks about
+        dir_renamed_away = False
         relevant_ops = ['modify', 'create', 'rename_over', 'move_in', 'rename_away', 'delete', 'modify_sub', 'nonutf8_then_modify',
                         'any_modify', 'any_create_tmpname_not', 'any_nonutf8', 'modify_md', 'modify_docs_md', 'modify', 'modify_md',
                         'file_modify', 'file_rename_over', 'file_rename_over', 'file_modify', 'mix_file_rename_over', 'mix_newsub',
@@ -671,9 +673,17 @@ def filter_scenario(rng, n_ops=10, tag='wf', ops=None):
                 os.makedirs(os.path.join(d, 'any', '.zinoma'), exist_ok=True)
                 open(os.path.join(d, 'any', '.zinoma', 'w%d' % seq), 'w').write('t\n')
             log.append(op)
+            MODELLED = {'file_modify': ('onef', 'M', 'conf/settings.ini'), 'file_rename_over': ('onef', 'R', 'conf/settings.ini'),
+                        'mix_file_rename_over': ('mixf', 'R', 'mix/inner.cfg'), 'mix_deep_modify': ('mixf', 'M', 'mix/deep/d.cfg'),
+                        'side_file_rename_over': ('sidef', 'R', 'side/one.ini'), 'side_sub_modify': ('sidef', 'M', 'side/subdir/x.ini')}
             if target:
                 idx = ['filt', 'anyf', 'onef', 'mixf', 'sidef'].index(target)
-                if not wait_runs(target, before[idx] + 1, 5):
+                triggered = wait_runs(target, before[idx] + 1, 5)
+                if op in MODELLED and not dir_renamed_away:
+                    modelled.append((MODELLED[op][0], MODELLED[op][1], MODELLED[op][2], triggered))
+                if op.startswith('side_dir_rename_away') and target:
+                    dir_renamed_away = True
+                if not triggered:
                     V.setdefault('C16', []).append('operation %r (#%d) on a declared input did not trigger %s within 5s (ops so far: %s)'
                                                    % (op, seq, target, log))
                     break
@@ -688,7 +698,7 @@ def filter_scenario(rng, n_ops=10, tag='wf', ops=None):
                                                    % (op, seq, before, after, log))
         if proc.poll() is not None:
             V.setdefault('C16', []).append('zinoma --watch exited with %s' % proc.returncode)
-        obs = {'ops': log, 'runs': (runs('filt'), runs('anyf'), runs('onef'), runs('mixf'), runs('sidef'))}
+        obs = {'ops': log, 'runs': (runs('filt'), runs('anyf'), runs('onef'), runs('mixf'), runs('sidef')), 'modelled': modelled}
         return obs, V
     finally:
         try:
